@@ -234,6 +234,11 @@ Act_C04(w, w1, call) ==
      /\ ~(w.c.L = 0 /\ w.c.N # 0))
     => RatLeq(w.c.N, w.c.L, w1.c.N, w1.c.L)
 
+\* the same, stated on the state change alone (stake: L grows; submit: a batch is appended)
+Act_C04s(w, w1) ==
+  ((w1.c.L > w.c.L \/ Len(w1.c.batches) > Len(w.c.batches)) /\ w.c.L > 0 /\ w1.c.L > 0)
+    => RatLeq(w.c.N, w.c.L, w1.c.N, w1.c.L)
+
 \* C11: fee bookkeeping is never negative
 Inv_C11(w) == w.c.fees >= 0 /\ w.c.rewards >= 0
 
